@@ -314,7 +314,14 @@ pub fn x_strategy() -> impl Strategy<Value = X> {
     ]
 }
 
-const COMPOUND_TARGETS: [&str; 8] = ["{} m", "{} / s", "{} s", "m {}", "2 {}", "1|2 {}", "m / {}", "{} {}"];
+const COMPOUND_TARGETS: [&str; 26] = [
+    "{} m", "{} / s", "{} s", "m {}", "2 {}", "1|2 {}", "m / {}", "{} {}",
+    // the scale followed by every other kind of token that continues an expression
+    "{}|2", "{} | 2", "{} %", "{} mod 7", "{} and 1", "{} xor 3", "{} 0x10", "{} 1e3", "{} * 2", "{}^2", "{} + 1 K", "{} 'apple'",
+    "{} per s", "{} of water",
+    // and preceded by one
+    "0x10 {}", "% {}", "m^2 {}", "'apple' {}",
+];
 const DIM_UNITS: [&str; 6] = ["m", "kg", "K", "s", "km", "mol"];
 
 pub fn case_strategy() -> impl Strategy<Value = Case> {
